@@ -15,7 +15,7 @@
 EXTENDS Banks, Json, IOUtils, SequencesExt
 
 CONSTANTS Profile, MaxBanks, MaxSegs, Deviations, Base,
-          Starts, Lens, Sizes    \* profile "layout": start alphabet, segment lengths, bank sizes (0 = no size)
+          Starts, Lens, Sizes    \* profile "layout": start alphabet, segment lengths, bank sizes (cfg files take no negative numbers: 99999 = no size, 88888 = size -1)
 
 BName == <<"b1", "b2", "b3", "b4">>
 SName == <<"s1", "s2", "s3", "s4", "s5", "s6">>
@@ -26,13 +26,13 @@ SegBytes(i, n) == [k \in 1..n |-> 16 * i + k]
 Names == [prg |-> "main.prg", bin |-> "main.bin"]
 
 (* ---- profile "layout" *)
-LBankOpts == {[size |-> IF sz = 0 THEN Off ELSE On(sz), fill |-> fl] : sz \in Sizes, fl \in {Off, On(170)}}
+LBankOpts == {[size |-> IF sz = 99999 THEN Off ELSE IF sz = 88888 THEN On(-1) ELSE On(sz), fill |-> fl] : sz \in Sizes, fl \in {Off, On(170)}}
 LPlace == {[st |-> st, len |-> n, write |-> w] :
              st \in Starts, n \in Lens, w \in BOOLEAN}
 LStart(p, i) == CASE p.st = "prev"  -> [k |-> "end", v |-> 0, of |-> SName[i - 1]]
                   [] p.st = "prev1" -> [k |-> "end", v |-> 1, of |-> SName[i - 1]]
                   [] p.st = "0" -> Lit(Base + 0) [] p.st = "1" -> Lit(Base + 1) [] p.st = "2" -> Lit(Base + 2)
-                  [] p.st = "4" -> Lit(Base + 4) [] p.st = "5" -> Lit(Base + 5)
+                  [] p.st = "4" -> Lit(Base + 4) [] p.st = "5" -> Lit(Base + 5) [] p.st = "7" -> Lit(Base + 7)
 LayoutCfgs ==
   {[banks |-> <<[name |-> "b1", size |-> bo.size, fill |-> bo.fill, fname |-> OffS, create |-> FALSE]>>,
     segs |-> [i \in DOMAIN pl |-> [name |-> SName[i], start |-> LStart(pl[i], i), pc |-> Off, write |-> pl[i].write,
@@ -76,10 +76,10 @@ Init == /\ cfg \in Configs
 
 Fail(k) == phase' = "failed" /\ errs' = errs \cup k
 
-(* codegen: every byte must be placed inside $0000-$ffff *)
+(* codegen: definitions inside their ranges, every byte placed inside $0000-$ffff *)
 Emit == /\ phase = "emit"
         /\ segs' = Placed(cfg)
-        /\ IF EmitRange(segs') THEN Fail({"range"}) ELSE phase' = "finalize" /\ UNCHANGED errs
+        /\ IF CodegenErrs(cfg, segs') # {} THEN Fail(CodegenErrs(cfg, segs')) ELSE phase' = "finalize" /\ UNCHANGED errs
         /\ UNCHANGED <<cfg, banks, bi, done, cur, merged, files, wi>>
 (* codegen finalize() *)
 Fin == /\ phase = "finalize"
@@ -164,6 +164,9 @@ NoUnknownBank == ~(phase = "failed" /\ "unknownbank" \in errs)
 NoNoBank == ~(phase = "failed" /\ "nobank" \in errs)
 NoPrgMulti == ~(phase = "failed" /\ "prgmulti" \in errs)
 NoRangeErr == ~(phase = "failed" /\ "range" \in errs)
+NoSizeRange == ~(phase = "failed" /\ "sizerange" \in errs)
+NoUndefSeg == ~(phase = "failed" /\ "undefseg" \in errs)
+NoZeroSize == ~(phase = "done" /\ banks[1].size.on /\ banks[1].size.v = 0)
 
 (* spec -> impl: export the configurations *)
 Export == TLCGet("stats").diameter >= 0 /\ ndJsonSerialize(IOEnv.OUT, SetToSeq(Configs))
